@@ -177,12 +177,25 @@ def run(case):
     res = {"tags": tags, "oracle": None}
     has_none = any(i is None for i in items)
     has_step = any(isinstance(i, dict) and i["s"][2] not in (None, 1) for i in items)
+    declared_before = None if W.low_level(base).array_shape is None else tuple(W.low_level(base).array_shape)
+    if case["wseed"] % 3 == 1:
+        # a refused request first (an integer one past the end): it must leave the cube as it is
+        try:
+            cube[(shape[0],) + (slice(None),) * (len(shape) - 1)]
+        except Exception:
+            pass
     # first slice
     try:
         out = cube[idx]
         impl = {"err": None}
     except Exception as e:
         out, impl = None, {"err": err_kind(e), "msg": str(e)[:200]}
+    # the WCS object the caller built the cube on still declares what the caller gave it (another cube may share it)
+    declared_after = None if W.low_level(base).array_shape is None else tuple(W.low_level(base).array_shape)
+    if declared_after != declared_before:
+        res["impl"] = impl
+        res["oracle"] = f"slicing changed the array shape declared by the caller's WCS object from {declared_before} to {declared_after}"
+        return res
     nstatus, nref = ("IndexError", None) if has_none else numpy_ref(ref, idx)
     scalar = nstatus == "ok" and np.ndim(nref) == 0
     res["impl"] = impl
